@@ -12,18 +12,29 @@ Proof.
   rewrite andb_true_iff, N.eqb_eq, String.eqb_eq. split; [intros [-> ->]; reflexivity | intros H; inversion H; auto].
 Qed.
 
+(* one row of the `views` table with its rows of the `mapped` table *)
+Record vdef := mkVdef {
+  vd_coll : N;                                   (* designDocs.collection *)
+  vd_ddoc : string;
+  vd_name : string;
+  vd_map : N;                                    (* which map function of the family (its JavaScript source in the harness) *)
+  vd_lastcas : N;                                (* views.lastCas *)
+  vd_rows : list (string * json * json)          (* mapped: (documents.key of the source document, emitted key, emitted value) *)
+}.
+
 Record store := mkStore {
   s_docs : list (dkey * row);              (* insertion (rowid) order *)
   s_colls : list (N * (string * N));       (* collections: id -> (scope.name, lastCas) in id order *)
   s_nextcoll : N;                          (* AUTOINCREMENT *)
   s_lastcas : N;                           (* bucket.lastCas *)
   s_high : N;                              (* hlc.highestTime (process-wide) *)
-  s_log : list (N * string * event)        (* every event posted so far: (collection id, key, event) *)
+  s_log : list (N * string * event);       (* every event posted so far: (collection id, key, event) *)
+  s_views : list vdef                      (* design documents / views / mapped *)
 }.
 
 Definition default_coll : string := "_default._default".
 
-Definition store0 : store := mkStore [] [(1, (default_coll, 0))] 2 0 0 [].
+Definition store0 : store := mkStore [] [(1, (default_coll, 0))] 2 0 0 [] [].
 
 Definition get_doc (s : store) (k : dkey) : option row := alookup dkey_eqb k (s_docs s).
 
@@ -41,6 +52,17 @@ Record sctx := mkSctx {
   x_clock : N;      (* what the physical clock reads during this call *)
   x_now : N;        (* time.Now().Unix() during this call *)
   x_maxdoc : N
+}.
+
+(* view query parameters (the subset the family exercises) *)
+Record vparams := mkVparams {
+  vp_stale : bool;                 (* stale=ok: do not update the index first *)
+  vp_descending : bool;
+  vp_limit : option N;
+  vp_startkey : option json;
+  vp_endkey : option json;
+  vp_inclusive_end : bool;
+  vp_key : option json
 }.
 
 (* the family of SQL statements of C19 (semantics: eval_query below) *)
@@ -62,6 +84,9 @@ Inductive sop :=
 | SDump (coll : string) (start : N)      (* a one-shot (Dump) feed with backfill from CAS `start` *)
 | SReopen                                (* an on-disk bucket: every handle closed, then reopened *)
 | SQuery (coll : string) (q : qtemplate) (* Collection.Query with one of the family's statements *)
+| SPutDDoc (coll ddoc : string) (views : list (string * N))   (* PutDDoc: view name -> map function of the family *)
+| SDelDDoc (coll ddoc : string)
+| SView (coll ddoc view : string) (p : vparams)
 | SExpire.                       (* the expiry timer fires (bucket.doExpiration) *)
 
 Record sres := mkSres {
@@ -73,20 +98,41 @@ Record sres := mkSres {
 
 Definition create_coll (s : store) (name : string) : store * N :=
   let id := s_nextcoll s in
-  (mkStore (s_docs s) (s_colls s ++ [(id, (name, 0))]) (id + 1) (s_lastcas s) (s_high s) (s_log s), id).
+  (mkStore (s_docs s) (s_colls s ++ [(id, (name, 0))]) (id + 1) (s_lastcas s) (s_high s) (s_log s) (s_views s), id).
 
-(* apply one key-value call to collection id `cid` *)
+Definition is_withmeta (op : kop) : bool :=
+  match op with KSetWithMeta _ _ _ _ _ _ | KDeleteWithMeta _ _ _ _ => true | _ => false end.
+Definition withmeta_cas (op : kop) : N :=
+  match op with KSetWithMeta _ nc _ _ _ _ | KDeleteWithMeta _ nc _ _ => nc | _ => 0 end.
+
+Definition raise_coll_lastcas (id cas : N) (cs : list (N * (string * N))) : list (N * (string * N)) :=
+  map (fun c => if fst c =? id then (fst c, (fst (snd c), N.max (snd (snd c)) cas)) else c) cs.
+
+(* apply one key-value call to collection id `cid`.  A regular write sets bucket.lastCas and the
+   collection's lastCas to its new CAS (setLastCas).  A successful WithMeta write, whose CAS the caller
+   chose, raises both to at least that CAS and resets views.lastCas of every view of the collection
+   (writeWithMeta), so that the next non-stale query rebuilds those indexes. *)
 Definition kv_on (s : store) (x : sctx) (cid : N) (key : string) (op : kop) : sres :=
   let c1 := hlc_now (s_high s) (x_clock x) in
   let res := kstep (mkCtx (x_now x) c1 (x_maxdoc x)) op (get_doc s (cid, key)) in
   let high' := if kr_draws res =? 0 then s_high s else c1 + (kr_draws res - 1) in
   let evs := map (fun e => (cid, key, e)) (kr_events res) in
+  let meta_ok := is_withmeta op && negb (match kr_resp res with RErr _ => true | _ => false end) in
   let s' := mkStore (aput dkey_eqb (cid, key) (kr_row res) (s_docs s))
-                    (match kr_commit res with Some c => set_coll_lastcas cid c (s_colls s) | None => s_colls s end)
+                    (match kr_commit res with
+                     | Some c => set_coll_lastcas cid c (s_colls s)
+                     | None => if meta_ok then raise_coll_lastcas cid (withmeta_cas op) (s_colls s) else s_colls s
+                     end)
                     (s_nextcoll s)
-                    (match kr_commit res with Some c => c | None => s_lastcas s end)
+                    (match kr_commit res with
+                     | Some c => c
+                     | None => if meta_ok then N.max (s_lastcas s) (withmeta_cas op) else s_lastcas s
+                     end)
                     high'
-                    (s_log s ++ evs) in
+                    (s_log s ++ evs)
+                    (if meta_ok
+                     then map (fun v => if vd_coll v =? cid then mkVdef (vd_coll v) (vd_ddoc v) (vd_name v) (vd_map v) 0 (vd_rows v) else v) (s_views s)
+                     else s_views s) in
   mkSres s' (kr_resp res) evs [].
 
 (* Collection.expireDocuments: keys of this collection with 0 < exp <= now, in (exp, rowid) order
@@ -204,6 +250,138 @@ Definition eval_query (q : qtemplate) (docs : list qdoc) : list string :=
   | QLast2 => map (fun d => row_id (fst (fst d))) (firstn 2 (rev sorted))
   end.
 
+(* ------------------------------------------------------------------------------------------ *)
+(* Views (views.go, designdoc.go).                                                               *)
+
+(* what the map function is shown: the parsed body if the document is JSON and has a body, else {} ;
+   meta.xattrs only if the xattrs column holds a non-empty object *)
+Definition map_doc (r : row) : option json :=
+  if r_isJSON r then match r_value r with Some v => jparse v | None => Some (JObj []) end else Some (JObj []).
+
+Definition map_xattrs (r : row) : list (string * string) :=
+  match xparse (r_xattrs r) with Some m => m | None => [] end.
+
+Definition num_prop (j : json) (k : string) : option json :=
+  match j with
+  | JObj m => match obj_get k m with Some (JNum neg n) => Some (JNum neg n) | _ => None end
+  | _ => None
+  end.
+
+(* The family of map functions (JavaScript sources in harness/views.go):
+   0: if (doc is an object with a numeric a) emit(doc.a, meta.id)
+   1: emit(meta.id, null)
+   2: if (meta.xattrs && meta.xattrs._sync !== undefined) emit(meta.id, meta.xattrs._sync)
+   3: if (doc is an object with a numeric a) { emit([doc.a, 1], null); emit([doc.a, meta.id], null) }      *)
+Definition mapfn (id : N) (key : string) (r : row) : list (json * json) :=
+  match map_doc r with
+  | None => []                                (* the body does not parse: the function fails, nothing is emitted *)
+  | Some doc =>
+      match id with
+      | 0 => match num_prop doc "a" with Some a => [(a, JStr key)] | None => [] end
+      | 1 => [(JStr key, JNull)]
+      | 2 => match alookup String.eqb "_sync" (map_xattrs r) with
+             | Some v => match jparse v with Some j => [(JStr key, j)] | None => [] end
+             | None => []
+             end
+      | _ => match num_prop doc "a" with Some a => [(JArr [a; JNum false 1], JNull); (JArr [a; JStr key], JNull)] | None => [] end
+      end
+  end.
+
+(* which documents the indexer feeds to the map function *)
+Definition mappable (r : row) : bool :=
+  is_some (r_value r) || match r_xattrs r with XNull => false | _ => true end.
+
+Definition coll_lastcas (s : store) (cid : N) : N :=
+  match alookup N.eqb cid (s_colls s) with Some p => snd p | None => 0 end.
+
+(* updateView *)
+Definition update_view (s : store) (v : vdef) : vdef :=
+  let latest := coll_lastcas s (vd_coll v) in
+  if latest =? vd_lastcas v then v else
+  let changed := filter (fun d : dkey * row => (fst (fst d) =? vd_coll v) && (vd_lastcas v <? r_cas (snd d))) (s_docs s) in
+  let is_changed (k : string) := existsb (fun d : dkey * row => String.eqb (snd (fst d)) k) changed in
+  let kept := filter (fun row : string * json * json => negb (is_changed (fst (fst row)))) (vd_rows v) in
+  let fresh := flat_map (fun d : dkey * row =>
+                 if mappable (snd d) then map (fun kv => (snd (fst d), fst kv, snd kv)) (mapfn (vd_map v) (snd (fst d)) (snd d)) else [])
+               changed in
+  mkVdef (vd_coll v) (vd_ddoc v) (vd_name v) (vd_map v) latest (kept ++ fresh).
+
+(* JSON collation of emitted keys (sgbucket.JSONCollator): null < false < true < numbers < strings <
+   arrays < objects; the family emits non-negative integers, lower-case ASCII strings and arrays of them *)
+Definition jrank (j : json) : N :=
+  match j with JNull => 0 | JBool false => 1 | JBool true => 2 | JNum _ _ => 3 | JStr _ => 4 | JArr _ => 5 | JObj _ => 6 end.
+
+Fixpoint jcollate (a b : json) : comparison :=
+  match a, b with
+  | JNum na x, JNum nb y =>
+      match na, nb with
+      | false, false => N.compare x y
+      | true, true => N.compare y x
+      | true, false => Lt
+      | false, true => Gt
+      end
+  | JStr x, JStr y => String.compare x y
+  | JArr la, JArr lb =>
+      (fix go (la lb : list json) : comparison :=
+         match la, lb with
+         | [], [] => Eq
+         | [], _ :: _ => Lt
+         | _ :: _, [] => Gt
+         | x :: ra, y :: rb => match jcollate x y with Eq => go ra rb | c => c end
+         end) la lb
+  | _, _ => N.compare (jrank a) (jrank b)
+  end.
+
+Definition vrow := (string * json * json)%type.     (* (document id, key, value) *)
+
+Definition vrow_lt (a b : vrow) : bool :=
+  match jcollate (snd (fst a)) (snd (fst b)) with
+  | Lt => true
+  | Gt => false
+  | Eq => match String.compare (fst (fst a)) (fst (fst b)) with Lt => true | _ => false end
+  end.
+
+Fixpoint insert_vrow (d : vrow) (l : list vrow) : list vrow :=
+  match l with
+  | [] => [d]
+  | d' :: r => if vrow_lt d d' then d :: l else d' :: insert_vrow d r
+  end.
+Definition sort_vrows (l : list vrow) : list vrow := fold_left (fun acc d => insert_vrow d acc) l [].
+
+Definition key_ge (k : json) (lo : option json) (incl : bool) : bool :=
+  match lo with None => true | Some m => match jcollate k m with Gt => true | Eq => incl | Lt => false end end.
+Definition key_le (k : json) (hi : option json) (incl : bool) : bool :=
+  match hi with None => true | Some m => match jcollate k m with Lt => true | Eq => incl | Gt => false end end.
+
+(* ParseViewParams + getViewRows + ProcessParsed for the exercised parameters *)
+Definition select_rows (p : vparams) (rows : list vrow) : list vrow :=
+  let '(minkey, maxkey, incl_min, incl_max) :=
+    match vp_key p with
+    | Some k => (Some k, Some k, true, true)
+    | None =>
+        if vp_descending p then (vp_endkey p, vp_startkey p, vp_inclusive_end p, true)
+        else (vp_startkey p, vp_endkey p, true, vp_inclusive_end p)
+    end in
+  let inrange := filter (fun r : vrow => key_ge (snd (fst r)) minkey incl_min && key_le (snd (fst r)) maxkey incl_max) (sort_vrows rows) in
+  let ordered := if vp_descending p then rev inrange else inrange in
+  match vp_limit p with Some n => firstn (N.to_nat n) ordered | None => ordered end.
+
+Definition render_vrow (r : vrow) : string :=
+  (fst (fst r) ++ "|" ++ jprint (snd (fst r)) ++ "|" ++ jprint (snd r))%string.
+
+Definition is_view (cid : N) (ddoc name : string) (v : vdef) : bool :=
+  (vd_coll v =? cid) && String.eqb (vd_ddoc v) ddoc && String.eqb (vd_name v) name.
+Definition in_ddoc (cid : N) (ddoc : string) (v : vdef) : bool := (vd_coll v =? cid) && String.eqb (vd_ddoc v) ddoc.
+
+Definition with_views (s : store) (vs : list vdef) : store :=
+  mkStore (s_docs s) (s_colls s) (s_nextcoll s) (s_lastcas s) (s_high s) (s_log s) vs.
+
+Definition same_ddoc (cid : N) (ddoc : string) (views : list (string * N)) (vs : list vdef) : bool :=
+  let cur := map (fun v => (vd_name v, vd_map v)) (filter (in_ddoc cid ddoc) vs) in
+  match cur with [] => false | _ => true end
+  && forallb (fun nv => existsb (fun c => String.eqb (fst c) (fst nv) && (snd c =? snd nv)) cur) views
+  && forallb (fun c => existsb (fun nv => String.eqb (fst c) (fst nv) && (snd c =? snd nv)) views) cur.
+
 Definition marker (op : fopcode) : fevent := mkFevent op "" "" [] false false 0 0 0 0.
 
 Definition sstep (s : store) (x : sctx) (o : sop) : sres :=
@@ -221,7 +399,11 @@ Definition sstep (s : store) (x : sctx) (o : sop) : sres :=
       (* DELETE FROM documents WHERE value IS NULL *)
       let keep := filter (fun d => is_some (r_value (snd d))) (s_docs s) in
       let n := N.of_nat (List.length (s_docs s) - List.length keep) in
-      mkSres (mkStore keep (s_colls s) (s_nextcoll s) (s_lastcas s) (s_high s) (s_log s)) (RNum n) [] []
+      (* mapped.doc REFERENCES documents(id) ON DELETE CASCADE *)
+      let gone (cid : N) (k : string) := negb (existsb (fun d : dkey * row => dkey_eqb (fst d) (cid, k)) keep) in
+      let vs := map (fun v => mkVdef (vd_coll v) (vd_ddoc v) (vd_name v) (vd_map v) (vd_lastcas v)
+                                     (filter (fun row : vrow => negb (gone (vd_coll v) (fst (fst row)))) (vd_rows v))) (s_views s) in
+      mkSres (mkStore keep (s_colls s) (s_nextcoll s) (s_lastcas s) (s_high s) (s_log s) vs) (RNum n) [] []
   | SCreateColl name =>
       match coll_id s name with
       | Some _ => mkSres s (RErr EOther) [] []
@@ -234,14 +416,46 @@ Definition sstep (s : store) (x : sctx) (o : sop) : sres :=
       | Some cid =>
           mkSres (mkStore (filter (fun d => negb (fst (fst d) =? cid)) (s_docs s))
                           (filter (fun c => negb (fst c =? cid)) (s_colls s))
-                          (s_nextcoll s) (s_lastcas s) (s_high s) (s_log s)) ROk [] []
+                          (s_nextcoll s) (s_lastcas s) (s_high s) (s_log s)
+                          (filter (fun v => negb (vd_coll v =? cid)) (s_views s))) ROk [] []
       end
   | SDump coll start =>
       match coll_id s coll with
       | Some cid => mkSres s ROk [] (marker FBegin :: backfill_events s cid start ++ [marker FEnd])
       | None => mkSres s (RErr EOther) [] []
       end
-  | SReopen => mkSres s ROk [] []
+  | SReopen =>
+      (* OpenBucket: hlc.updateLatestTime(bucket.getLastTimestamp()) *)
+      mkSres (mkStore (s_docs s) (s_colls s) (s_nextcoll s) (s_lastcas s) (hlc_update (s_high s) (s_lastcas s)) (s_log s) (s_views s)) ROk [] []
+  | SPutDDoc coll ddoc views =>
+      match coll_id s coll with
+      | None => mkSres s (RErr EOther) [] []
+      | Some cid =>
+          if same_ddoc cid ddoc views (s_views s) then mkSres s ROk [] []       (* unchanged: nothing is re-created *)
+          else
+            let others := filter (fun v => negb (in_ddoc cid ddoc v)) (s_views s) in
+            mkSres (with_views s (others ++ map (fun nv => mkVdef cid ddoc (fst nv) (snd nv) 0 []) views)) ROk [] []
+      end
+  | SDelDDoc coll ddoc =>
+      match coll_id s coll with
+      | None => mkSres s (RErr EOther) [] []
+      | Some cid =>
+          if existsb (in_ddoc cid ddoc) (s_views s)
+          then mkSres (with_views s (filter (fun v => negb (in_ddoc cid ddoc v)) (s_views s))) ROk [] []
+          else mkSres s (RErr EMissing) [] []
+      end
+  | SView coll ddoc name p =>
+      match coll_id s coll with
+      | None => mkSres s (RErr EOther) [] []
+      | Some cid =>
+          match filter (is_view cid ddoc name) (s_views s) with
+          | [] => mkSres s (RErr EMissing) [] []
+          | v :: _ =>
+              let v' := if vp_stale p then v else update_view s v in
+              let vs := map (fun w => if is_view cid ddoc name w then v' else w) (s_views s) in
+              mkSres (with_views s vs) (RRows (map render_vrow (select_rows p (vd_rows v')))) [] []
+          end
+      end
   | SQuery coll q =>
       match coll_id s coll with
       | Some cid => mkSres s (RRows (eval_query q (keyspace s cid))) [] []
